@@ -585,34 +585,54 @@ def build_groups(ctx, listed, specials):
     return groups
 
 
-SK_CFG = ('INIT Init\nNEXT Next\nCHECK_DEADLOCK FALSE\nINVARIANT ThmKindIndependent\nINVARIANT ThmExport\n'
-          'CONSTANT Boms = {"utf-8","utf-16le","utf-16be"}\n'
-          'CONSTANT Labels = {"utf-8","utf-16le","windows-1252","shift_jis"}\nCONSTANT Export = TRUE\n')
+SK_DEFECTS = ["seekable-bytes-rewound"]
+
+
+def sk_cfg(check, export, defects):
+    return ('INIT Init\nNEXT Next\nCHECK_DEADLOCK FALSE\nINVARIANT ThmKindIndependent\nINVARIANT ThmFromCurrent\n'
+            'INVARIANT ThmExport\nCONSTANT Boms = {"utf-8","utf-16le","utf-16be"}\n'
+            'CONSTANT Labels = {"utf-8","utf-16le","shift_jis"}\nCONSTANT Export = %s\nCONSTANT CheckProperty = %s\n'
+            % ("TRUE" if export else "FALSE", "TRUE" if check else "FALSE")) + defects_const(defects)
 
 
 def factory_row(item):
+    """(row, fragment) -> (problem or None, the row shows a listed deviation)"""
     row, frag = item
     got = ins.open_row(row, frag)
     exp = row["exp"]
     if (got["out"], got["enc"], got["conf"]) != (exp["out"], exp["enc"], exp["conf"]):
-        return "factory gave %s, SourceKind.Open says %s" % ({k: got[k] for k in ("out", "enc", "conf")}, exp)
-    if not got["same_tree"]:
-        return "tree differs from the str delivery of the same characters"
-    return None
+        return "factory gave %s, SourceKind.Open says %s" % ({k: got[k] for k in ("out", "enc", "conf", "detail") if k in got}, exp), False
+    if got["tree"] != got["want"]:
+        return "document does not start at '%s': tree differs from the str delivery of those characters" % exp["from"], False
+    return None, exp != row["int"]
 
 
 def factory_table(ctx):
-    r = ctx.tlc("MC_SourceKind", SK_CFG, "sourcekind", expect_ok=False)
+    sk_listed = [d for d in SK_DEFECTS if d in ctx.open_keys]
+    r = ctx.tlc("MC_SourceKind", sk_cfg(True, False, []), "sourcekind-intended", expect_ok=False)
     if r.violated or r.error:
-        ctx.violation("SourceKind: theorem %s fails" % (r.violated or r.error), {"tlc": r.stdout_path})
+        ctx.violation("SourceKind: theorem %s fails on the intended specification" % (r.violated or r.error), {"tlc": r.stdout_path})
         return
+    r = ctx.tlc("MC_SourceKind", sk_cfg(False, True, sk_listed), "sourcekind", expect_ok=False)
+    if r.violated or r.error:
+        ctx.violation("SourceKind: %s" % (r.violated or r.error), {"tlc": r.stdout_path})
+        return
+    if sk_listed:
+        r2 = ctx.tlc("MC_SourceKind", sk_cfg(True, False, sk_listed), "sourcekind-witness", expect_ok=False, workers=1)
+        ctx.notes["model_level_witness:seekable-bytes-rewound"] = r2.violated in ("ThmKindIndependent", "ThmFromCurrent")
     rows = sorted(r.records, key=lambda x: json.dumps(x, sort_keys=True))
-    items = [(row, frag) for row in rows for frag in (False, True)]
-    for (row, frag), bad in zip(items, core.parallel(factory_row, items, chunk=100)):
+    items = [(row, bool(zlib.crc32(json.dumps(row, sort_keys=True).encode()) & 1)) for row in rows]
+    for (row, frag), (bad, dev) in zip(items, core.parallel(factory_row, items, chunk=100)):
         ctx.traces += 1
-        ctx.nontriv(("factory", row["k"], row["bom"] != "none", row["ov"] != "none", row["tr"] != "none", row["exp"]["out"]))
+        k = row["k"]
+        ctx.nontriv(("factory", k["name"], k["yields"], k["seek"], k["mode"], row["bom"] != "none", row["ov"] != "none",
+                     row["tr"] != "none", row["pos"], row["exp"]["out"]))
+        case = {"kind": "factory", "row": row, "fragment": frag}
         if bad:
-            ctx.violation("stream factory: " + bad, {"kind": "factory", "row": row, "fragment": frag})
+            ctx.violation("stream factory / hand-over: " + bad, case)
+        elif dev:
+            report_finding(ctx, "seekable-bytes-rewound", "a seekable byte stream that is not at its start is read from "
+                           "its beginning (document starts at '%s')" % row["exp"]["from"], case)
     ctx.notes["factory_rows_opened"] = len(items)
 
 
@@ -626,8 +646,10 @@ def run(ctx):
     ctx.constants = {"MC intended (Alpha, MaxPiece, MaxLen, MaxOps)": mc_int, "MC code-faithful export": mc_exp,
                      "MC code-faithful export, special code points": (sp_alpha, 2, 3, 3),
                      "special code points (LINE_LIKE + harvested from the source under test)": [hex(ord(c)) for c in specials],
-                     "factory table": "MC_SourceKind: 10 source kinds x BOM {none,utf-8,utf-16le,utf-16be} x override x "
-                                      "transport over 4 labels (all 768 declared combinations), parse and parseFragment",
+                     "factory table": "MC_SourceKind: 48 source kinds (str/bytes, 14 library objects incl. zip member, codecs.open, gzip, "
+                                      "TextIOWrapper, BufferedReader, raw file, HTTPResponse; 32 duck-typed yields x seekable x .mode) x BOM x "
+                                      "override x transport over 3 labels x state at hand-over {start, mid, end, closed}: all 3270 rows, "
+                                      "parse or parseFragment",
                      "until sets": "{&,<,NUL}; space characters (opposite); ASCII letters (opposite)",
                      "KnownDefects(code-faithful)": listed,
                      "end-to-end": "etree fullTree; deliveries: str, StringIO, _defaultChunkSize 1/2/3/7 and all sizes "
@@ -771,7 +793,7 @@ def replay(case):
     elif kind == "bb-behaviour":
         bad = bytebuffer.replay_behaviour({"h": c["h"]})
     elif kind == "factory":
-        bad = factory_row((c["row"], c.get("fragment", False)))
+        bad = factory_row((c["row"], c.get("fragment", False)))[0]
     elif kind == "delivery":
         text = ucs(c["text"])
         end_to_end(ctx, listed, [(text, [{"kind": "str"}, c["delivery"]])], "replay")
